@@ -191,7 +191,15 @@ pub fn run(cli: &Cli, rep: &Report) {
                 let d = o.dict as usize;
                 for delta in -2i64..=2 {
                     let total = (b as i64 + delta) as usize;
-                    for sh in [vec![Seg::R(64), Seg::P(3, total - 64)], vec![Seg::Z(total)], vec![Seg::R(d), Seg::D(d, total - d)], vec![Seg::C(total - 300), Seg::D(7, 300)]] {
+                    let mut tails = vec![vec![Seg::R(64), Seg::P(3, total - 64)], vec![Seg::Z(total)], vec![Seg::R(d), Seg::D(d, total - d)], vec![Seg::C(total - 300), Seg::D(7, 300)]];
+                    // short rep matches and literals at every one of the last positions (echo at distance 7 and 1000 with the
+                    // fresh literal at each phase): the encoder probes rep candidates within the last few bytes of the buffer
+                    if delta >= -1 && delta <= 0 {
+                        for phase in 0..16u64 {
+                            tails.push(vec![Seg::C(total - 2000), Seg::E(if phase % 2 == 0 { 7 } else { 1000 }, 2000, 1000 + phase)]);
+                        }
+                    }
+                    for sh in tails {
                         wcases.push(Case { cont: cont.clone(), opts: o, input: Input::Shape(sh), ops: vec![], bias: 0 });
                     }
                 }
